@@ -727,9 +727,27 @@ def check_c20(tier, seed, tmp, t0):
     rcs = run_procs(jobs, secs * 6 + 900)
     infra, viol = [], list(build_viol)
     if any(rcs):
-        for (argv, _, lp), rc in zip(jobs, rcs):
-            if rc:
-                infra.append("process failed rc=%s: %s" % (rc, open(lp).read()[-800:]))
+        # jobs are laid out pair by pair, side a (base) then side b (the mode), per_pair processes each
+        for k, ((argv, env, lp), rc) in enumerate(zip(jobs, rcs)):
+            if not rc:
+                continue
+            tag = pairs[k // (2 * per_pair)][0]
+            side_b = (k // per_pair) % 2 == 1
+            tail = open(lp).read()[-800:]
+            if side_b and rcs[k - per_pair] == 0 and rc != -9:
+                # The process running the mode's output died while the process running the same programs
+                # generated in base mode went through the same runs. Once more, to see that it is this
+                # output and not the machine.
+                rc2 = run_procs([(argv, env, lp + ".again")], secs * 6 + 900)[0]
+                if rc2 not in (0, -9):
+                    i = k % per_pair
+                    path = os.path.join(replaydir, "C20_%s_died_s%d_p%d.json" % (tag, seed, i))
+                    json.dump(dict(property="C20", engine="l2-differential", pair=tag, seed=seed, proc=i, tier=tier, last_run_begun=last_begin(os.path.join(tmp, "begin_%s_b_%d" % (tag, i))),
+                                   message="the process running -genmode %s output died (twice), the one running base output did not" % ("source-map" if tag == "smap" else "modifier"), detail=tail,
+                                   **{"class": "mode-process-died:" + tag}), open(path, "w"), indent=1)
+                    viol.append(("mode-process-died:" + tag, "same programs, same runs: the process running the %s output died (rc=%s, reproduced), the one running base output completed: %s" % (tag, rc, tail[-400:].replace("\n", " | ")), path))
+                    continue
+            infra.append("process failed rc=%s: %s" % (rc, tail))
     compared, differ_trace = 0, 0
     sums = []
     samples = []
